@@ -501,7 +501,11 @@ def mon_C05(rng, budget, tier):
 def _check_sigma(mon, case, nums, res, tau, limit, kappa_pos=True):
     for t, (tp, tr) in enumerate(zip(nums, res)):
         for j, ((_, s0), (_, s1)) in enumerate(zip(tp, tr)):
+            # the property's bound is the REAL sqrt(s0^2 + tau^2); this double carries up to two ulps of rounding of its own
+            # (three roundings before the root), and another correct evaluation of the inflated sigma (math.hypot, s0**2)
+            # may land on a neighbouring double: four ulps of slack, nothing a wrong update could hide in
             bound = math.sqrt(s0 * s0 + tau * tau)
+            bound += 4 * ulp(bound)
             if not math.isfinite(s1) or not (s1 > 0 if kappa_pos else s1 >= 0):
                 mon.fail("sigma positive and finite", case, "player [%d][%d]: posterior sigma %r" % (t, j, s1))
             elif s1 > bound:
